@@ -106,13 +106,7 @@ func updateSelfRefsFromBinding(edits editSet, binding *syntax.BindStm,
 	// Must edit the original AST here or else other edits will be operating on
 	// the incorrect expression.
 	binding.Exp = exp
-	return append(edits, &editBinding{
-		Pipeline: pipe,
-		Call:     call,
-		Binding:  binding,
-		Mods:     isMods,
-		Exp:      exp,
-	})
+	return append(edits, newEditBinding(pipe, call, binding, isMods, exp))
 }
 
 type (
